@@ -211,8 +211,48 @@ def r05_3(ck, F):
     ck.expect(n >= 4, "interlock#sites", f"{n} serializers", f"only {n} interlocked serializers found", None)
 
 
+def r05_3b(ck, F):
+    ck.rule("R05.3b", "interlock state machine: Location::check_local returns true for Local; for Sending it becomes Remote "
+            "(false) once the transfer was confirmed, stays Sending (false) while pending, and falls back to Local (true) "
+            "when the confirmation sender was dropped, i.e. the serialized half was discarded",
+            "a half serialized twice (buffered attempt overflowed and the value is re-serialized for streaming, or a "
+            "refused send is retried): the interlock stays in Sending and the second serialization wires a forwarder "
+            "that waits forever", floor=2)
+    from robs_common import event_arms
+    b = F.body("rch::interlock::Location::check_local")
+    LOC = "rch::interlock::Location"
+    larms, lsw, _ = event_arms(b, LOC)
+
+    def stores(region):
+        return sorted(rv["variant"] for bb, i, rv in b.aggregates(LOC) if bb in region)
+
+    def results(region):
+        out = set()
+        for bb in region:
+            for st in b.stmts(bb):
+                if st["k"] == "assign" and st["p"] == [0] and st["rv"]["r"] == "use":
+                    out.add(const_value(b.expr(st["rv"]["o"])))
+        return out
+    sending = larms["Sending"][2] if "Sending" in larms else set()
+    ck.expect("Local" in stores(sending) and 1 in results(sending), "check_local#discarded-transfer",
+              "the Sending arm can fall back to Local (true) when the transfer was discarded",
+              "a discarded transfer (confirmation sender dropped) never returns the half to Local: a re-serialized half "
+              "is treated as being in transfer forever", b.loc(lsw))
+    ck.expect("Remote" in stores(sending), "check_local#confirmed-transfer", "confirmed -> Remote",
+              "a confirmed transfer does not mark the half Remote", b.loc(lsw))
+    try:
+        arms, sw, _ = event_arms(b, "tokio::sync::oneshot::error::TryRecvError")
+        ok_closed = "Closed" in arms and stores(arms["Closed"][2]) == ["Local"] and results(arms["Closed"][2]) == {1}
+        ok_empty = "Empty" in arms and stores(arms["Empty"][2]) == [] and results(arms["Empty"][2]) == {0}
+        ck.expect(ok_closed and ok_empty, "check_local#try_recv-table", "Closed -> Local/true, Empty -> unchanged/false",
+                  f"try_recv outcomes mapped wrongly (Closed ok: {ok_closed}, Empty ok: {ok_empty})", b.loc(sw))
+    except mir.AnchorMissing:
+        ck.inconclusive("check_local#try_recv-table", "no explicit match on TryRecvError; only the coarse clauses were checked")
+
+
 def run(ck, F):
     import c03
+    ck.run_rule(r05_3b)
     for r in (r05_1, r05_2, r05_3):
         ck.run_rule(r)
     ck.run_rule(c03.r03_2)
